@@ -14,6 +14,7 @@ import (
 	"sort"
 	"strings"
 
+	"github.com/go-openapi/loads"
 	"github.com/go-openapi/runtime"
 	"github.com/go-openapi/runtime/middleware"
 	"github.com/go-openapi/runtime/middleware/untyped"
@@ -77,12 +78,16 @@ func consumerID(c runtime.Consumer) string {
 	return fmt.Sprintf("foreign:%T", c)
 }
 
+const singlePath = "/api/op"
+
+// opRef is one operation served by an instance: method + path below the base path /api.
+type opRef struct{ method, path string }
+
 func newEnv(cfg Config) *env {
-	e := &env{cfg: cfg}
 	sp := apib.Spec{BasePath: "/api", Produces: []string{"application/json"}}
 	var params []map[string]any
 	if cfg.BodyParam {
-		params = []map[string]any{{"name": "body", "in": "body", "required": false, "schema": map[string]any{"type": "object"}}}
+		params = []map[string]any{bodyParamDecl}
 	}
 	var opConsumes []string
 	if len(cfg.Consumes) > 0 {
@@ -92,12 +97,21 @@ func newEnv(cfg Config) *env {
 			opConsumes = cfg.Consumes
 		}
 	}
+	var ops []opRef
 	for _, m := range methods {
 		sp.Ops = append(sp.Ops, apib.Op{Method: m, Path: "/op", Consumes: opConsumes, Params: params})
+		ops = append(ops, opRef{m, "/op"})
 	}
-	doc := apib.MustLoad(sp)
+	return newInstance(cfg, apib.MustLoad(sp), ops)
+}
+
+var bodyParamDecl = map[string]any{"name": "body", "in": "body", "required": false, "schema": map[string]any{"type": "object"}}
+
+// newInstance wires a fresh API value, Context, router and handler chain over an analysed description.
+// cfg supplies the API default, the registered consumers and whether the binder decodes a body.
+func newInstance(cfg Config, doc *loads.Document, ops []opRef) *env {
+	e := &env{cfg: cfg}
 	api := untyped.NewAPI(doc)
-	api.DefaultConsumes = cfg.Default
 	// the built-in JSON consumer is replaced by an instrumented one (or removed)
 	api.WithoutJSONDefaults()
 	api.DefaultConsumes = cfg.Default
@@ -106,8 +120,8 @@ func newEnv(cfg Config) *env {
 	for _, k := range registeredKeys(cfg) {
 		api.RegisterConsumer(k, &recCons{id: k, e: e})
 	}
-	for _, m := range methods {
-		api.RegisterOperation(m, "/op", runtime.OperationHandlerFunc(func(_ interface{}) (interface{}, error) {
+	for _, o := range ops {
+		api.RegisterOperation(o.method, o.path, runtime.OperationHandlerFunc(func(_ interface{}) (interface{}, error) {
 			e.handler++
 			return "ok", nil
 		}))
@@ -171,16 +185,16 @@ func headerLines(h Header) string {
 }
 
 // rawRequest renders the request text for the wire-parsed body modes.
-func rawRequest(method string, h Header, mode string) string {
-	return method + " /api/op HTTP/1.1\r\nHost: x\r\n" + headerLines(h) + bodyModes[mode].raw
+func rawRequest(method, path string, h Header, mode string) string {
+	return method + " " + path + " HTTP/1.1\r\nHost: x\r\n" + headerLines(h) + bodyModes[mode].raw
 }
 
 // buildRequest creates a fresh request (bodies are consumed by the run).
-func buildRequest(method string, h Header, mode string, raw string) *http.Request {
+func buildRequest(method, path string, h Header, mode string, raw string) *http.Request {
 	m := bodyModes[mode]
 	if !m.isDir {
 		if raw == "" {
-			raw = rawRequest(method, h, mode)
+			raw = rawRequest(method, path, h, mode)
 		}
 		req, err := http.ReadRequest(bufio.NewReaderSize(strings.NewReader(raw), 256))
 		if err != nil {
@@ -193,8 +207,8 @@ func buildRequest(method string, h Header, mode string, raw string) *http.Reques
 		name = "Content-Type"
 	}
 	req := &http.Request{
-		Method: method, URL: &url.URL{Path: "/api/op"}, Proto: "HTTP/1.1", ProtoMajor: 1, ProtoMinor: 1,
-		Header: http.Header{}, Host: "x", RequestURI: "/api/op",
+		Method: method, URL: &url.URL{Path: path}, Proto: "HTTP/1.1", ProtoMajor: 1, ProtoMinor: 1,
+		Header: http.Header{}, Host: "x", RequestURI: path,
 		Body: io.NopCloser(strings.NewReader(m.direct)), ContentLength: -1,
 	}
 	for _, l := range h.Lines {
@@ -269,7 +283,7 @@ func (e *env) runTyped(req *http.Request) (o obs) {
 // execute runs one case on both entry points.
 func (e *env) execute(c Case, raw string) (obs, obs) {
 	e.order = c.Order
-	u := e.runUntyped(buildRequest(c.Method, c.Header, c.Body, raw))
-	t := e.runTyped(buildRequest(c.Method, c.Header, c.Body, raw))
+	u := e.runUntyped(buildRequest(c.Method, singlePath, c.Header, c.Body, raw))
+	t := e.runTyped(buildRequest(c.Method, singlePath, c.Header, c.Body, raw))
 	return u, t
 }
